@@ -214,8 +214,9 @@ def _sparse_to_banded(matrix, expected_length):
 
     """
     diag_matrix = matrix.todia()
-    lower = min(0, diag_matrix.offsets.min())
-    upper = max(0, diag_matrix.offsets.max())
+    # initial=0 covers matrices without any stored entries, which have no offsets
+    lower = min(0, diag_matrix.offsets.min(initial=0))
+    upper = max(0, diag_matrix.offsets.max(initial=0))
 
     data_size = diag_matrix.data.shape[1]
     if (
